@@ -534,6 +534,7 @@ hawk_ooi_t hawk_tio_writebchars (hawk_tio_t* tio, const hawk_bch_t* mptr, hawk_o
 		{
 			while (mptr[pos] != '\0')
 			{
+				if (tio->outbuf_len >= tio->out.buf.capa) goto still_full;
 				tio->out.buf.ptr[tio->outbuf_len++] = mptr[pos++];
 				if (tio->outbuf_len >= tio->out.buf.capa &&
 				    hawk_tio_flush(tio) <= -1) return -1;
@@ -545,6 +546,7 @@ hawk_ooi_t hawk_tio_writebchars (hawk_tio_t* tio, const hawk_bch_t* mptr, hawk_o
 			int nl = 0;
 			while (mptr[pos] != '\0')
 			{
+				if (tio->outbuf_len >= tio->out.buf.capa) goto still_full;
 				tio->out.buf.ptr[tio->outbuf_len++] = mptr[pos];
 				if (tio->outbuf_len >= tio->out.buf.capa)
 				{
@@ -559,6 +561,12 @@ hawk_ooi_t hawk_tio_writebchars (hawk_tio_t* tio, const hawk_bch_t* mptr, hawk_o
 		}
 
 		return pos;
+
+	still_full:
+		/* the last flush handed out nothing (the writer accepted 0 bytes).
+		 * there is no room for the next byte */
+		hawk_gem_seterrnum (tio->gem, HAWK_NULL, HAWK_EBUFFULL);
+		return -1;
 	}
 	else
 	{
